@@ -1315,11 +1315,15 @@ def week_config(p, cfg, order="se"):
     """the process-wide week configuration, set through the public setters in the given order ('se': start then
     end, 'es': end then start, 's' / 'e': only that setter, the other bound keeps the default) and restored after"""
     if cfg is not None:
-        for c in order:
+        for c in order:                      # upper case: the setter is given a plain int (WeekDay is an IntEnum)
             if c == "s":
                 p.week_starts_at(p.WeekDay(cfg["ws"]))
-            else:
+            elif c == "e":
                 p.week_ends_at(p.WeekDay(cfg["we"]))
+            elif c == "S":
+                p.week_starts_at(int(cfg["ws"]))
+            else:
+                p.week_ends_at(int(cfg["we"]))
     try:
         yield
     finally:
